@@ -15,13 +15,15 @@ import (
 
 type vUDPWireHandler struct {
 	sync.Mutex
-	got []*Message
-	ch  chan bool
+	got   []*Message
+	peers []string // source the transport attributes each message to
+	ch    chan bool
 }
 
 func (h *vUDPWireHandler) HandleRawMessage(raw *RawMessage) {
 	h.Lock()
 	h.got = append(h.got, raw.Message)
+	h.peers = append(h.peers, net.JoinHostPort(raw.PeerAddr, strconv.Itoa(raw.PeerPort)))
 	h.Unlock()
 	h.ch <- true
 }
@@ -31,6 +33,7 @@ var (
 	vUDPWireH    *vUDPWireHandler
 	vUDPWireAddr *net.UDPAddr
 	vUDPWireSock *net.UDPConn
+	vUDPWireSen  *net.UDPConn // the sentinel comes from ANOTHER source address
 	vUDPWireSeq  int
 )
 
@@ -46,7 +49,11 @@ func init() {
 			return "listen-error"
 		}
 		vUDPWireAddr = &net.UDPAddr{IP: net.IPv4(127, 0, 0, 1), Port: port}
-		vUDPWireSock, err = net.ListenUDP("udp", &net.UDPAddr{IP: net.IPv4(127, 0, 0, 1), Port: 0})
+		vUDPWireSock, err = net.ListenUDP("udp", &net.UDPAddr{IP: net.IPv4(127, 0, 2, 1), Port: 0})
+		if err != nil {
+			return "err"
+		}
+		vUDPWireSen, err = net.ListenUDP("udp", &net.UDPAddr{IP: net.IPv4(127, 0, 2, 2), Port: 0})
 		if err != nil {
 			return "err"
 		}
@@ -63,11 +70,12 @@ func init() {
 		sentinel := "OPTIONS sip:s SIP/2.0\r\nCall-ID: " + sentinelID + "\r\nContent-Length: 0\r\n\r\n"
 		vUDPWireH.Lock()
 		vUDPWireH.got = nil
+		vUDPWireH.peers = nil
 		vUDPWireH.Unlock()
 		if _, err := vUDPWireSock.WriteToUDP([]byte(unhx(a[0])), vUDPWireAddr); err != nil {
 			return "send-error"
 		}
-		if _, err := vUDPWireSock.WriteToUDP([]byte(sentinel), vUDPWireAddr); err != nil {
+		if _, err := vUDPWireSen.WriteToUDP([]byte(sentinel), vUDPWireAddr); err != nil {
 			return "send-error"
 		}
 		deadline := time.After(5 * time.Second)
@@ -79,6 +87,7 @@ func init() {
 			}
 			vUDPWireH.Lock()
 			got := append([]*Message(nil), vUDPWireH.got...)
+			peers := append([]string(nil), vUDPWireH.peers...)
 			vUDPWireH.Unlock()
 			if len(got) == 0 {
 				continue
@@ -89,10 +98,15 @@ func init() {
 					return "rejected"
 				}
 				b, _ := got[0].Bytes()
+				res := "ok " + hxb(b)
 				if len(got) > 2 {
-					return "ok " + hxb(b) + " extra-messages=" + strconv.Itoa(len(got)-2)
+					res += " extra-messages=" + strconv.Itoa(len(got)-2)
 				}
-				return "ok " + hxb(b)
+				// the datagram came from the first socket, the sentinel from the second
+				if peers[0] != vUDPWireSock.LocalAddr().String() || peers[len(peers)-1] != vUDPWireSen.LocalAddr().String() {
+					res += " wrong-source=" + hx(peers[0])
+				}
+				return res
 			}
 		}
 	})
